@@ -36,6 +36,9 @@
 // Returns true if a is closer to cutoff than a/2.
 static inline int closer(rci_t a, int cutoff) { return 3 * a < 4 * cutoff; }
 
+// Returns true if a dimension is too small to be split into two non-empty word-aligned halves.
+static inline int empty_split(rci_t a) { return a < 2 * m4ri_radix; }
+
 mzd_t *_mzd_addmul_mp4(mzd_t *C, mzd_t const *A, mzd_t const *B, int cutoff) {
   /**
    * \todo make sure not to overwrite crap after ncols and before width * m4ri_radix
@@ -44,7 +47,8 @@ mzd_t *_mzd_addmul_mp4(mzd_t *C, mzd_t const *A, mzd_t const *B, int cutoff) {
   rci_t b = A->ncols;
   rci_t c = B->ncols;
   /* handle case first, where the input matrices are too small already */
-  if (closer(A->nrows, cutoff) || closer(A->ncols, cutoff) || closer(B->ncols, cutoff)) {
+  if (closer(A->nrows, cutoff) || closer(A->ncols, cutoff) || closer(B->ncols, cutoff) ||
+      empty_split(A->nrows) || empty_split(A->ncols) || empty_split(B->ncols)) {
     /* we copy the matrix first since it is only constant memory
        overhead and improves data locality, if you remove it make sure
        there are no speed regressions */
@@ -163,7 +167,8 @@ mzd_t *_mzd_mul_mp4(mzd_t *C, mzd_t const *A, mzd_t const *B, int cutoff) {
   rci_t b = A->ncols;
   rci_t c = B->ncols;
   /* handle case first, where the input matrices are too small already */
-  if (closer(A->nrows, cutoff) || closer(A->ncols, cutoff) || closer(B->ncols, cutoff)) {
+  if (closer(A->nrows, cutoff) || closer(A->ncols, cutoff) || closer(B->ncols, cutoff) ||
+      empty_split(A->nrows) || empty_split(A->ncols) || empty_split(B->ncols)) {
     /* we copy the matrix first since it is only constant memory
        overhead and improves data locality, if you remove it make sure
        there are no speed regressions */
@@ -231,7 +236,7 @@ mzd_t *_mzd_mul_mp4(mzd_t *C, mzd_t const *A, mzd_t const *B, int cutoff) {
   if (B->ncols > 2 * bnc) {
     mzd_t const *B_last_col = mzd_init_window_const(B, 0, 2 * bnc, A->ncols, B->ncols);
     mzd_t *C_last_col       = mzd_init_window(C, 0, 2 * bnc, A->nrows, C->ncols);
-    mzd_addmul_m4rm(C_last_col, A, B_last_col, 0);
+    _mzd_mul_m4rm(C_last_col, A, B_last_col, 0, TRUE);
     mzd_free_window((mzd_t *)B_last_col);
     mzd_free_window(C_last_col);
   }
@@ -239,7 +244,7 @@ mzd_t *_mzd_mul_mp4(mzd_t *C, mzd_t const *A, mzd_t const *B, int cutoff) {
     mzd_t const *A_last_row = mzd_init_window_const(A, 2 * anr, 0, A->nrows, A->ncols);
     mzd_t const *B_bulk     = mzd_init_window_const(B, 0, 0, B->nrows, 2 * bnc);
     mzd_t *C_last_row       = mzd_init_window(C, 2 * anr, 0, C->nrows, 2 * bnc);
-    mzd_addmul_m4rm(C_last_row, A_last_row, B_bulk, 0);
+    _mzd_mul_m4rm(C_last_row, A_last_row, B_bulk, 0, TRUE);
     mzd_free_window((mzd_t *)A_last_row);
     mzd_free_window((mzd_t *)B_bulk);
     mzd_free_window(C_last_row);
